@@ -714,6 +714,52 @@ def case_decode_twice(p):
     return []
 
 
+def _mutate_into(cls, obj, tree):
+    """Turn the live message `obj` into `tree` the way application code edits a message it holds: nested messages are edited in place, lists
+    keep their identity (cleared and refilled, or their items edited), only leaf fields are assigned."""
+    for f in ts.schema(cls):
+        want = tree.get(f.name)
+        cur = getattr(obj, f.name)
+        if f.kind == "struct" and isinstance(want, dict) and cur is not None:
+            _mutate_into(f.arg, cur, want)
+        elif f.kind == "list" and isinstance(want, list) and isinstance(cur, list):
+            if len(cur) == len(want):
+                for item, w in zip(cur, want):
+                    _mutate_into(f.arg, item, w)
+            else:
+                del cur[:]
+                cur.extend(ts.build(f.arg, w) for w in want)
+        elif want is None:
+            setattr(obj, f.name, None)
+        else:
+            setattr(obj, f.name, getattr(ts.build(cls, {f.name: want}), f.name))
+
+
+def case_encode_history(p):
+    """p: cls, tree, tree2.  A message is built with the values of `tree` and encoded; the application then edits the SAME object into `tree2`
+    (in place, at every depth) and encodes it again: the encoding is that of the field values the message has NOW."""
+    cls = _cls(p["cls"])
+    a, b = p["tree"], p["tree2"]
+    if _packed_set(cls, a) or _packed_set(cls, b):
+        return []
+    try:
+        obj = ts.build(cls, a)
+        first = bytes(obj.encode())
+    except Exception:  # noqa: BLE001
+        return []  # judged by the message family
+    if first != ts.encode(cls, a):
+        return []  # dito
+    try:
+        _mutate_into(cls, obj, b)
+        second = bytes(obj.encode())
+    except Exception as e:  # noqa: BLE001
+        return [(f"encode-after-the-message-was-edited-raises:{type(e).__name__}:{cls.__name__}", {"error": str(e)[:160], "fields_before": sorted(a), "fields_after": sorted(b)})]
+    if second != ts.encode(cls, b):
+        stale = second == first
+        return [(f"encode-after-the-message-was-edited-{'returns-the-earlier-bytes' if stale else 'differs'}:{cls.__name__}", {"fields_before": sorted(a), "fields_after": sorted(b)})]
+    return []
+
+
 def case_charvalue_history(p):
     """p: uuid, cls, array, seq (list of tree lists), how ('set_value' | 'process_changes').  One Characteristic object over several updates, its
     .value read after (and twice after) each: it is what was stored last, however it was stored."""
@@ -820,7 +866,7 @@ def case_signature(p):
     return _uniq(out)
 
 
-CASES = {"family": case_family, "signature": case_signature, "message": case_message, "links": case_links, "database": case_database, "charvalue": case_charvalue, "decode_twice": case_decode_twice, "charvalue_history": case_charvalue_history}
+CASES = {"encode_history": case_encode_history, "family": case_family, "signature": case_signature, "message": case_message, "links": case_links, "database": case_database, "charvalue": case_charvalue, "decode_twice": case_decode_twice, "charvalue_history": case_charvalue_history}
 
 
 # ---------------------------------------------------------------- work
@@ -843,8 +889,18 @@ def _work(item, seed, tier):
         _, cid, quick = item
         cls = _cls(cid)
         synthetic = cid.startswith("synthetic:")
+        prev = None
         for fam, sym, tree in _message_trees(cls, quick, seed % 251):
             p = {"cls": cid, "tree": tree}
+            if prev is not None and tree:
+                # the previous message of the enumeration, edited in place into this one, and the other way round
+                for a_, b_ in ((prev, tree), (tree, prev)):
+                    ph = {"cls": cid, "tree": a_, "tree2": b_}
+                    acc.extra["encode_histories"] += 1
+                    for sig, detail in case_encode_history(ph):
+                        acc.violation(sig, "encode_history", ph, detail)
+            if tree:
+                prev = tree
             viol = judge_message(cls, tree)
             syms = [f"type:{cid.split(':')[-1]}", f"family:{fam}", f"value:{sym}"] + (["synthetic-type"] if synthetic else [])
             kinds = {f.kind for f in ts.schema(cls) if f.name in tree}
